@@ -22,7 +22,7 @@ import struct
 import sys
 from io import BytesIO
 
-from common import Check, CoqError, coq_bytes, coq_list, coq_N, coq_nat, mkdata, VERIF
+from common import Check, CoqError, coq_list, coq_N, coq_nat, mkdata, VERIF
 
 import dbus.bus
 import dbus.service
@@ -422,9 +422,15 @@ def gen_bytes(seed, length):
 def cb(data):
     if isinstance(data, GenBytes):
         return '(gdata %d%%N %d%%N)' % (data.seed, len(data))
-    if len(data) > 1500:
+    if len(data) > 2500:
         raise ValueError('octet literal too long for a Coq case file')
-    return coq_bytes(data)
+    if len(data) == 0:
+        return '(@nil N)'
+    # [unhex] (= [be]) costs a long division per octet, quadratic in the length, and a long list
+    # literal is slow to type-check: emit 16-octet pieces
+    data = bytes(data)
+    parts = ['(unhex %d 0x%s%%N)' % (len(data[pos:pos + 16]), data[pos:pos + 16].hex()) for pos in range(0, len(data), 16)]
+    return parts[0] if len(parts) == 1 else '(List.concat [%s])' % '; '.join(parts)
 
 
 def c_opt_list(val):
@@ -432,7 +438,7 @@ def c_opt_list(val):
 
 
 def c_hints(hints):
-    return coq_list(['(%s, %s)' % (coq_N(htype), coq_bytes(hdata)) for (htype, hdata) in hints], '(N * list N)')
+    return coq_list(['(%s, %s)' % (coq_N(htype), cb(hdata)) for (htype, hdata) in hints], '(N * list N)')
 
 
 def c_msg(case):
@@ -443,7 +449,7 @@ def c_msg(case):
 
 def c_codec(msgs, pad):
     return '(%s, %s)' % (coq_list([c_msg(case) for case in msgs], '(N * list N * list (N * list N) * N * N * list N)'),
-                         coq_bytes(pad))
+                         cb(pad))
 
 
 def c_send(mtu, xid, seed, length):
@@ -456,7 +462,7 @@ def c_xfer(mtu, xid, seed, length, order):
 
 
 def c_recv(arrival):
-    return coq_list(['(%s, %s)' % (coq_N(cnum), coq_bytes(frame)) for (cnum, frame) in arrival], '(N * list N)')
+    return coq_list(['(%s, %s)' % (coq_N(cnum), cb(frame)) for (cnum, frame) in arrival], '(N * list N)')
 
 
 def samp(chk, limit, obj):
@@ -869,7 +875,7 @@ def run_all(chk):
     lap('codec')
     # ---- (a') decode / re-encode of octet strings ------------------------------------------
     dec_cases = gen_decode_cases(chk, encodings)
-    model = chk.coq_eval('decode', ['Model.Btpu'], [coq_bytes(item) for item in dec_cases], 'run_decode', chunk=60)
+    model = chk.coq_eval('decode', ['Model.Btpu'], [cb(item) for item in dec_cases], 'run_decode', chunk=60)
     for (pos, (octets, mod)) in enumerate(zip(dec_cases, model)):
         dis = real_dissect(octets)
         chk.case(('decode', octets), nontrivial=bool(mod), sample=None)
